@@ -57,6 +57,8 @@ def blocked(inst, st, a):
         return tokstate(st, "par", e["snap"][0]) != "done"
     if pc == "spawnwait":
         return e["todo"][0] not in st["spret"]["#set"]
+    if pc == "cl_succwait":
+        return inst.actors[a].get("succ") not in st["spret"]["#set"]
     return False
 
 
